@@ -6100,7 +6100,9 @@ class CodegenCtx:
                 char_type = self._get_string_char_type()
                 if action.into_storage.holds_a(OutputStorageType.RAW):
                     char_type = "uint8_t"
-                body.add(f"{self._generate_buflike_index_expr(action.into_storage, f'state->{action.into_storage.name}_counter++')} = ({char_type})({target_expression});")
+                # (the value may read the length or the contents of this very buffer: stored first, counted afterwards)
+                body.add(f"{self._generate_buflike_index_expr(action.into_storage, f'state->{action.into_storage.name}_counter')} = ({char_type})({target_expression});")
+                body.add(f"state->{action.into_storage.name}_counter++;")
                 if action.into_storage.holds_a(OutputStorageType.STR) and action.into_storage.str_null:
                     body.add(f"{self._generate_buflike_index_expr(action.into_storage, f'state->{action.into_storage.name}_counter')} = 0;")
             result.add("}")
